@@ -427,8 +427,10 @@ def stepE2E (e : E2E) (w : List String) (impl : String) : Option (E2E × StepOut
       let e := affect e fun _ => true
       if e.link != 0 then ({ e with settled := false }, { model := "ok" }) else
       if kind == "read" then
-        -- the reader's next `read_network_message` fails
-        let pxs := e.pxs.map fun (p : PX) => { p with net := p.net.step .cut }
+        -- the reader's next `read_network_message` fails: the faulty node's own proxies lose their
+        -- session (`loseA`: frames under way may still arrive), the peer's proxies lose the link
+        let dn := (parseDir? d).getD 0
+        let pxs := e.pxs.map fun (p : PX) => { p with net := p.net.step (if p.dir == dn then .loseA else .cut) }
         ({ e with pxs := pxs, link := 1, fault := some kind, lk := Link.step e.lk (.read .err), settled := false },
          { model := "ok", nontrivial := true })
       else
